@@ -25,7 +25,7 @@ REQUIRED = ["pe_total_match_raw", "pe_total_build_raw", "pe_total_credentials_re
             "credentials_required_of_descriptors", "build_reports_missing_credentials", "validate_rejects_without_complete_selection",
             "wallet_verifier_agree_partial", "wallet_verifier_disagree_witness",
             "old_code_max_zero_selects_all", "old_code_min_above_max_returns_partial",
-            "fact_apply_max_counts_taken_members", "fact_regex_timeout_bounded", "fact_fulfill_callers_return_on_error", "fact_consumer_wiring", "fact_match_result_consumers", "fact_apply_max_test_first", "fact_apply_rejects_min_above_max",
+            "fact_resolve_evaluates_path_nested_first", "path_nested_always_evaluated", "fact_apply_max_counts_taken_members", "fact_regex_timeout_bounded", "fact_fulfill_callers_return_on_error", "fact_consumer_wiring", "fact_match_result_consumers", "fact_apply_max_test_first", "fact_apply_rejects_min_above_max",
             "old_code_panics_array_pattern", "old_code_type_only_filter_matches_any_array",
             "old_code_panics_pick_min_only", "old_code_accepts_shadowed_entry",
             "fact_array_case_guarded", "fact_apply_derefs_guarded", "fact_apply_max_guarded",
@@ -308,7 +308,7 @@ def run(ctx):
         env["VERIF_REPLAY"] = os.path.abspath(ctx.replay)
     else:
         env["VERIF_CORPUS"] = os.path.join(os.path.dirname(os.path.dirname(os.path.abspath(__file__))), "harness", "corpus", "C12")
-        env["VERIF_CASES"] = 40000 if ctx.thorough else 5000
+        env["VERIF_CASES"] = 40000 if ctx.thorough else 4000
     rc, log, out = ctx.run_harness(binary, "TestVerifC12", env, timeout=3000)
     if rc != 0:
         ctx.oblige("harness-runs", False, log[-1500:])
